@@ -39,11 +39,14 @@ def integrityOp (op : String) (args : List String) : Option String :=
   | "pi.dec", [w] => do
     let w ← bitsArg w
     some (iOut (fun o => s!"{boolOut o.ok} {o.crc} {bitsOut o.enc}") (piDec w))
-  -- data header: received crc field, re-serialised data bits -> "ok crc"
-  | "dh.check", [c, reser] => do
-    let c ← bitsArg c
-    let reser ← bitsArg reser
-    some (iOut (fun r => s!"{boolOut r.1} {bitsOut r.2}") (dhCheck c reser))
+  -- data header: from_bits -> crc_ok ; as_bits of a header built from the 80 field bits
+  | "dh.dec", [w, ff] => do
+    let w ← bitsArg w
+    let ff ← flagArg ff
+    some (iOut boolOut (dhDec w ff))
+  | "dh.enc", [body] => do
+    let body ← bitsArg body
+    some (iOut bitsOut (dhEnc body))
   -- rate blocks: from_bits_typed(bits, Confirmed | ConfirmedLastBlock) -> "ok dbsn crc9 crc32 data"
   | "rate.dec", [c, last, w] => do
     let c ← rateByName c
